@@ -140,12 +140,25 @@ def _check_parity(case, distinct):
     cw0 = (1.0 - cw if abs(cw - 0.5) > 0.1 else 0.0) if prior else cw
     gs = GridSearch(learner(tie=case.get("tie", 0)), R.build_moment(case), constraint_weight=cw0,
                     grid_size=grid_size, grid_limit=prior if prior else grid_limit, **({"sample_weight_name": "w"} if swn else {}))
+    def _fit(est):
+        # at a grid point where every signed weight cancels exactly the relabelled problem has one label and all-zero
+        # weights, which scikit-learn's DummyClassifier rejects: outside the property (any classifier is a best
+        # response there); such cases are skipped and counted, like the all-weights-cancel fits of C08
+        try:
+            est.fit(X, y, sensitive_features=sf)
+        except ValueError as e:
+            if "at least one non-zero number" in str(e):
+                from vf.runner import Skip
+
+                raise Skip("all signed weights cancel at a grid point") from None
+            raise
+
     if prior:
         # the same estimator object was constructed and used with another grid_limit and another constraint_weight (a sweep):
         # everything below is demanded of the refit
-        gs.fit(X, y, sensitive_features=sf)
+        _fit(gs)
         gs.set_params(grid_limit=grid_limit, constraint_weight=cw)
-    gs.fit(X, y, sensitive_features=sf)
+    _fit(gs)
 
     P = R.Problem(case)
     lam_df, gam_df, bi = _grid_frames(gs, grid_size)
